@@ -2,7 +2,7 @@
    map to the OCaml types; Z, N, positive, nat stay the extracted Coq datatypes.  No Extract Constant. *)
 From Coq Require Extraction ExtrOcamlBasic.
 From Sonic Require Import Base.Prelude Gen.Consts Gen.Preds Gen.BipBuffer Gen.Mirrored Gen.Slot.
-From Sonic Require Import Model.BipMem Spec.ByteQueue Model.MirrorMem Spec.Ring Model.ByteBuffer Spec.ThreeFifo Model.Slots Spec.ParkedMap Model.WsFrame Spec.FrameParser Model.WsCodec Model.Transport Spec.LenParser Model.LenCodec Model.Utf8 Model.WsStream Spec.WsSession Model.Loop Spec.OpLedger Model.RW Model.PostConc Model.Handshake Model.Ctors Model.WsAsync.
+From Sonic Require Import Model.BipMem Spec.ByteQueue Model.MirrorMem Spec.Ring Model.ByteBuffer Spec.ThreeFifo Model.Slots Spec.ParkedMap Model.WsFrame Spec.FrameParser Model.WsCodec Model.Transport Spec.LenParser Model.LenCodec Model.Utf8 Model.WsStream Spec.WsSession Model.Loop Spec.OpLedger Model.RW Model.PostConc Model.Handshake Model.Ctors Model.WsAsync Model.Mcast.
 Extraction Language OCaml.
 Extraction "model.ml"
   BipMem.binit BipMem.bstep BipMem.bobserve BipMem.babs
@@ -15,5 +15,5 @@ Extraction "model.ml"
   LenCodec.lconn_init LenCodec.lcstep LenParser.lparse1 LenParser.lencode LenParser.be32 Consts.frame_MaxPayloadLength
   WsStream.ws_init WsStream.wsstep Utf8.utf8_valid WsSession.sess_init WsSession.sess_step WsSession.sess_final WsSession.r_key
   Loop.loop_init Loop.lstep Loop.obj_bits Loop.timers_alive OpLedger.ledger_init OpLedger.ledger_step
-  RW.rw_init RW.rwstep PostConc.cinit PostConc.tstep Handshake.hs_init Handshake.handshake Handshake.hs_verdict Ctors.fstep WsAsync.wa_init WsAsync.wastep
+  RW.rw_init RW.rwstep PostConc.cinit PostConc.tstep Handshake.hs_init Handshake.handshake Handshake.hs_verdict Ctors.fstep WsAsync.wa_init WsAsync.wastep Mcast.ds_init Mcast.dstep Mcast.peer_new Mcast.k_default Mcast.sstep Mcast.gstep Mcast.delivers
   Z.of_nat Z.to_nat Z.add Z.mul Z.sub Z.div Z.modulo Z.eqb Z.ltb Z.leb Z.opp Z.abs Z.compare Z.div_eucl.
